@@ -203,6 +203,48 @@ pub fn drive<P: Property>(p: &P, opts: &Opts) -> i32 {
         };
     }
 
+    // ---- regression tier: saved minimal cases of earlier findings, replayed without the generator
+    let mut regress_run = 0usize;
+    if let Ok(rd) = std::fs::read_dir(format!("{}/regress", opts.verif_dir)) {
+        let mut files: Vec<_> = rd
+            .filter_map(|e| e.ok())
+            .map(|e| e.path())
+            .filter(|p| {
+                p.file_name()
+                    .and_then(|n| n.to_str())
+                    .map_or(false, |n| n.starts_with(&format!("{id}-")) && n.ends_with(".json"))
+            })
+            .collect();
+        files.sort();
+        for f in files {
+            let Ok(txt) = std::fs::read_to_string(&f) else { continue };
+            let Ok(v) = serde_json::from_str::<Value>(&txt) else {
+                println!("HARNESS-ERROR regress file {} does not parse", f.display());
+                return 2;
+            };
+            let case: P::Case = match serde_json::from_value(v.get("case").cloned().unwrap_or(v.clone())) {
+                Ok(c) => c,
+                Err(e) => {
+                    println!("HARNESS-ERROR regress file {} does not decode: {e}", f.display());
+                    return 2;
+                }
+            };
+            regress_run += 1;
+            let rep = run_guarded(p, &case);
+            if let Some(msg) = rep.violation {
+                let listed = rep
+                    .known
+                    .as_ref()
+                    .map_or(false, |sig| known.iter().any(|(s, _)| s == sig));
+                if !listed {
+                    println!("regression case {} fails again: {msg}", f.display());
+                    println!("VIOLATION property={id} replay={}", f.display());
+                    return 1;
+                }
+            }
+        }
+    }
+
     let (cases_default, threads_default) = p.budget(opts.tier);
     let cases = opts.cases.unwrap_or(cases_default).max(1);
     let threads = opts.threads.unwrap_or(threads_default).max(1).min(cases as usize);
@@ -372,6 +414,7 @@ pub fn drive<P: Property>(p: &P, opts: &Opts) -> i32 {
             "class_histogram": class_hist,
             "excluded_by_known_finding": known_hist,
             "worker_threads": threads,
+            "regression_replays_passed": regress_run,
             "exhaustive": p.exhaustive(),
         },
         "assumptions": p.assumptions(),
